@@ -14,7 +14,11 @@ R1  starting-point attribution: the altitude / time cells returned by the share
     computation are the per-point look-up of the coordinate as received with
     the LAST point dropped ([:-1]; slicing before or after the search is the
     same), state values are variable[:-1]; `[1:]` (end point) or no reduction is
-    reported.  At the antimeridian split, on every path to a return, latitude /
+    reported.  A gather through the piece -> segment index array,
+    `A[np.repeat(np.arange(N), C)]`, is read as `np.repeat(A[:N], C)`; on a
+    per-point array a slice bound written with the number of segments
+    (`len(lats) − 1`) is read as what it keeps: `[:len(lats) − 1]` is `[:-1]`,
+    `[-(len(lats) − 1):]` is `[1:]` (end point, reported).  At the antimeridian split, on every path to a return, latitude /
     altitude / time / each state variable are the way-points on that side of
     element k plus ONE inserted point whose value is a plain copy of element k
     (the crossing segment's start) — an inserted value computed any other way
@@ -44,7 +48,11 @@ R3  part agreement by provenance (T-ROLE, c04.rule_suffix): what the
     (altitude indices index the altitude grid, ...).  No name marker is read.
 R4  the altitude / time cell of a segment is searchsorted(<own grid axis>,
     <own coordinate as received>) − 1: wrong axis, cast coordinates, another
-    side are reported (value followed through any helpers).
+    side are reported (value followed through any helpers).  An axis of n grid
+    values has n cells (the top cell is open-ended): a look-up clamped from
+    above to len(axis) − K, K ≥ 2 (np.clip / .clip / np.minimum) moves points
+    at or above the last grid value into a cell below and is reported (also
+    in R8); any other clamp is not decided (exit 2).
 R5  ordering direction: the rows of intersection coordinates sorted descending
     (every negation step in the state value of the array: negate – sort –
     negate, in place or through a sorted copy, inline or in a helper) are those
@@ -588,6 +596,111 @@ def of_axis(axis):
     return ok
 
 
+POINT_PARAMS = ('lats', 'lons', 'altitudes', 'times')
+
+
+def gather_as_repeat(e):
+    """`A[np.repeat(np.arange(N), C)]` - a gather through the piece -> segment index array - IS `np.repeat(A[:N], C)`: the
+    index array holds 0 … N − 1, entry i C[i] times, so only the first N entries of A are read, each repeated by its own count
+    (`A[:N][:N]` is `A[:N]`; `A[-N:][:N]` is `A[-N:]`, which has N entries at most).  Applied bottom-up wherever it stands."""
+    class T(ast.NodeTransformer):
+        def visit_Subscript(self, n):
+            self.generic_visit(n)
+            b = pm_any(['A_[np.repeat(np.arange(N_), C_)]', 'A_[np.repeat(np.arange(0, N_), C_)]',
+                        'A_[np.repeat(np.arange(N_), repeats=C_)]', 'A_[np.arange(N_).repeat(C_)]'], n)
+            if b is None:
+                return n
+            a, N = b['A_'], b['N_']
+            inner = a.slice if isinstance(a, ast.Subscript) and isinstance(a.slice, ast.Slice) and a.slice.step is None else None
+            first_n = inner is not None and inner.lower is None and inner.upper is not None and same(inner.upper, N)
+            last_n = inner is not None and inner.upper is None and isinstance(inner.lower, ast.UnaryOp) and \
+                isinstance(inner.lower.op, ast.USub) and same(inner.lower.operand, N)
+            if not (first_n or last_n):
+                a = ast.Subscript(value=a, slice=ast.Slice(lower=None, upper=N, step=None), ctx=ast.Load())
+            return ast.Call(func=ast.Attribute(value=ast.Name(id='np', ctx=ast.Load()), attr='repeat', ctx=ast.Load()),
+                            args=[a, b['C_']], keywords=[])
+    return ast.fix_missing_locations(T().visit(tcopy(e)))
+
+
+def _plain_slices(e):
+    """copy of `e` whose slice bounds are worded as their closed values, not as the local that held them (`[:n_segments]` is
+    `[:len(lats) - 1]`): what a slice keeps is read from the value of its bounds"""
+    e = tcopy(e)
+    for x in ast.walk(e):
+        if isinstance(x, ast.Subscript) and isinstance(x.slice, ast.Slice):
+            for y in ast.walk(x.slice):
+                if hasattr(y, '_nm'):
+                    del y._nm
+    return e
+
+
+def per_point_trail(trail, params):
+    """slices of a PER-POINT array (one entry per way-point, as many as `lats`: the contract of the gridding) written with the
+    number of segments `len(<per-point parameter>) − 1`: `[:len(lats) − 1]` keeps all but the last point (`[:-1]`),
+    `[-(len(lats) − 1):]` / `[1 − len(lats):]` all but the first (`[1:]`).  Other slices are left as they are."""
+    def nseg(x):
+        b = pm('len(P_) - 1', x)
+        return b is not None and isinstance(b['P_'], ast.Name) and b['P_'].id in POINT_PARAMS and b['P_'].id in params
+    out = []
+    for t in trail:
+        try:
+            sl = ast.parse(f'x[{t}]', mode='eval').body.slice
+        except SyntaxError:
+            out.append(t)
+            continue
+        if isinstance(sl, ast.Slice) and sl.step is None:
+            if sl.lower is None and sl.upper is not None and nseg(sl.upper):
+                t = ':-1'
+            elif sl.upper is None and sl.lower is not None:
+                lo = sl.lower
+                b = pm('1 - len(P_)', lo)
+                if (isinstance(lo, ast.UnaryOp) and isinstance(lo.op, ast.USub) and nseg(lo.operand)) or \
+                        (b is not None and isinstance(b['P_'], ast.Name) and b['P_'].id in POINT_PARAMS and b['P_'].id in params):
+                    t = '1:'
+        out.append(t)
+    return out
+
+
+def clamp_below_top(e):
+    """why-text when the cell index `e` (casts / slices peeled) is clamped from above - np.clip(I, lo, HI), I.clip(lo, HI),
+    np.minimum(I, HI) - to HI = <number of values of a grid axis> − K, K ≥ 2; else None.  An axis of n grid values has n cells:
+    every value is the lower edge of its own cell and the top cell (index n − 1 = searchsorted − 1 of anything above the last
+    value) is open-ended, so such a clamp moves every point at or above the last grid value into a cell below its own."""
+    for _ in range(8):
+        s = strip_casts(e)
+        if s is not e:
+            e = s
+            continue
+        if isinstance(e, ast.Subscript) and isinstance(e.slice, ast.Slice):
+            e = e.value
+            continue
+        break
+    b = pm_any(['np.clip(I_, LO_, HI_)', 'I_.clip(LO_, HI_)', 'np.clip(I_, a_min=LO_, a_max=HI_)', 'np.clip(I_, LO_, a_max=HI_)',
+                'np.clip(I_, min=LO_, max=HI_)', 'I_.clip(min=LO_, max=HI_)', 'np.minimum(I_, HI_)', 'np.minimum(HI_, I_)'], e)
+    if b is None or parse_lookup(b['I_']) is None:
+        return None
+    h = pm_any(['len(A_) - K_', 'A_.size - K_', 'A_.shape[0] - K_', 'np.size(A_) - K_'], b['HI_'])
+    if h is None:
+        return None
+    k, ax = const_value(h['K_']), show(canon(h['A_']))
+    if not (isinstance(k, int) and not isinstance(k, bool) and k >= 2 and re.fullmatch(r'self\.grid_\w+', ax)):
+        return None
+    return (f'the cell index is clamped to at most len({ax}) − {k}: an axis of n grid values has n cells (each value is the lower edge '
+            f'of its own cell, the top cell n − 1 is open-ended), so a point at or above the last grid value is moved into the cell '
+            f'below the one that contains it')
+
+
+_lookup_verdict04 = lookup_verdict
+
+
+def lookup_verdict(e, axis_attr, coord_ok):
+    """c04.lookup_verdict; a look-up clamped below the top cell is reported as that (clamp_below_top)"""
+    why = clamp_below_top(e)
+    if why is not None:
+        return False, why
+    return _lookup_verdict04(e, axis_attr, coord_ok)
+
+
 def segment_trail(lk_trail, what):
     """(ok, why): the per-point values are reduced to per-segment values by dropping the LAST point"""
     if lk_trail == [':-1']:
@@ -799,7 +912,7 @@ def rule_outputs(ctx, m):
         for pos, attr, param in ((2, 'grid_altitudes', 'altitudes'), (3, 'grid_times', 'times')):
             x, at = elts[pos]
             nrep = 0
-            for alt in alts(canon(V.close(fn, x, at))):
+            for alt in alts(gather_as_repeat(canon(V.close(fn, x, at)))):
                 line = getattr(at, 'lineno', r.lineno)
                 if pm_any(['np.array(())', 'np.empty(0)', 'np.zeros(0)', 'np.array((), dtype=T_)', 'np.empty(0, dtype=T_)'], alt) is not None:
                     continue
@@ -814,10 +927,10 @@ def rule_outputs(ctx, m):
                           f'the {param} cells are expanded by {whatc}, not by the number of cells each segment touches'), line=line)
                 pend.put('C05-R4', fn, f'{param} cell index = searchsorted(self.{attr}, {param}) − 1',
                          lookup_verdict(b['S_'], attr, as_received(param)), line=line)
-                lk = parse_lookup(b['S_'])
+                lk = parse_lookup(_plain_slices(b['S_']))
                 if lk is not None:
                     pend.put('C05-R1', fn, f'per-segment {param} cell = per-point cell{"".join("[" + t + "]" for t in lk["trail"])}',
-                             segment_trail(lk['trail'], f'{param} cell'), line=line)
+                             segment_trail(per_point_trail(lk['trail'], fn.params), f'{param} cell'), line=line)
             ctx.floor(f'C05-R2/{param}', nrep, 1, f'expansions of the per-segment {param} cells')
             n += nrep
         x, at = elts[4]
@@ -831,6 +944,7 @@ def rule_outputs(ctx, m):
                 ctx.ob('C05-R1', fn, f'state output built from {src}', False,
                        f'the state values of the pieces are computed from `{src}`, not from `state_variables`', line=line)
                 continue
+            val = gather_as_repeat(val)
             b = pm('np.repeat(S_, C_)', val)
             if b is None:
                 pend.put('C05-R1', fn, 'state values', (None, f'`{show(val, 80)}` is not repeat(per-segment state, count)'))
@@ -845,7 +959,8 @@ def rule_outputs(ctx, m):
                 trail.insert(0, norm(S.slice))
                 S = S.value
             if isinstance(strip_casts(S), ast.Name) and strip_casts(S).id == var:
-                pend.put('C05-R1', fn, 'state values of the segment start repeated per piece', segment_trail(trail, 'state value'), line=line)
+                pend.put('C05-R1', fn, 'state values of the segment start repeated per piece',
+                         segment_trail(per_point_trail(trail, fn.params), 'state value'), line=line)
             else:
                 pend.put('C05-R1', fn, 'state values', (None, f'`{show(b["S_"], 60)}` is not the state variable itself'))
     ctx.floor('C05-R2/outputs', n, 5, 'returned outputs recognised (2 horizontal, altitude, time, state)')
@@ -4089,4 +4204,5 @@ def run(ctx):
     ctx.note('NOT decided: lat/lon cell attribution, path order of pieces, equality of shares with length shares '
              '(grid-line intersection ordering and midpoint look-up are real-valued geometry)')
     ctx.assumptions += ['np.searchsorted(grid, x) − 1 is the index of the last grid value ≤ x (left side)',
-                        'indexing with a boolean mask returns a fresh flat array (a following .flatten() is the identity)']
+                        'indexing with a boolean mask returns a fresh flat array (a following .flatten() is the identity)',
+                        'altitudes, times and every state variable have one entry per way-point (as many as lats)']
